@@ -78,7 +78,7 @@ func goTypeOf(e ast.Expr) ltype {
 			return tBytes
 		case "OutputMode":
 			return tMode
-		case "Buffer":
+		case "Buffer", "StringBuilder":
 			return tBuffer
 		case "error":
 			return tErr
@@ -96,6 +96,12 @@ func goTypeOf(e ast.Expr) ltype {
 				return tBytes
 			case "m.RedactableBytes", "m.RedactableString":
 				return tBytes
+			case "i.SafeString", "i.SafeBytes":
+				return tBytes
+			case "i.SafeRune":
+				return tInt
+			case "i.SafeByte":
+				return tByte
 			}
 		}
 	case *ast.StarExpr:
@@ -385,7 +391,24 @@ func leanName(n string) string {
 }
 
 func (c *trCtx) call(x *ast.CallExpr, want ltype) string {
+	if at, ok := x.Fun.(*ast.ArrayType); ok && len(x.Args) == 1 && goTypeOf(at) == tBytes {
+		return c.expr(x.Args[0], tBytes) // []byte(s)
+	}
 	if id, ok := x.Fun.(*ast.Ident); ok {
+		switch id.Name {
+		case "string":
+			if len(x.Args) == 1 && c.typeOfExpr(x.Args[0]) == tBytes {
+				return c.expr(x.Args[0], tBytes)
+			}
+		case "rune":
+			if len(x.Args) == 1 && c.typeOfExpr(x.Args[0]) == tInt {
+				return c.expr(x.Args[0], tInt)
+			}
+		case "byte":
+			if len(x.Args) == 1 && c.typeOfExpr(x.Args[0]) == tByte {
+				return c.expr(x.Args[0], tByte)
+			}
+		}
 		switch id.Name {
 		case "len":
 			return "(goLen " + c.expr(x.Args[0], tBytes) + ")"
@@ -633,6 +656,12 @@ func (c *trCtx) methodCall(call *ast.CallExpr) (recv string, lean string, sig me
 		return
 	}
 	id, oki := se.X.(*ast.Ident)
+	if !oki {
+		// b.Buffer.M(...): the embedded buffer of a StringBuilder
+		if inner, oks2 := se.X.(*ast.SelectorExpr); oks2 && inner.Sel.Name == "Buffer" {
+			id, oki = inner.X.(*ast.Ident)
+		}
+	}
 	if !oki || c.vars[id.Name] != tBuffer {
 		return
 	}
@@ -844,6 +873,15 @@ func (c *trCtx) stmt(w *lw, s ast.Stmt, fd *ast.FuncDecl) {
 			w.line("return %s", c.bareReturn())
 			return
 		}
+		if len(x.Results) == 1 {
+			if call, okc := x.Results[0].(*ast.CallExpr); okc {
+				if recv, lean, sig, ok := c.methodCall(call); ok && sig.ptr && recv == c.recv && sig.nret > 0 {
+					w.line("let t_ret := %s", lean)
+					w.line("return t_ret")
+					return
+				}
+			}
+		}
 		if recv, off, src, ok := c.copyCall(x.Results[0]); ok {
 			// return copy(b.buf[m:], p), nil
 			w.line("let n_copied := goCopyN %s.buf %s %s", leanName(recv), off, src)
@@ -893,6 +931,18 @@ func (c *trCtx) assign1(w *lw, lhs, rhs ast.Expr, define bool) {
 		if id, oki := lhs.(*ast.Ident); oki && id.Name == "_" {
 			w.line("%s := { %s with buf := goCopyAt %s.buf %s %s }", leanName(recv), leanName(recv), leanName(recv), off, src)
 			return
+		}
+	}
+	if call, okc := rhs.(*ast.CallExpr); okc {
+		if recv, lean, sig, ok := c.methodCall(call); ok && sig.ptr {
+			if id, oki := lhs.(*ast.Ident); oki && id.Name == "_" {
+				if sig.nret == 0 {
+					w.line("%s := %s", leanName(recv), lean)
+				} else {
+					w.line("%s := %s.1", leanName(recv), lean)
+				}
+				return
+			}
 		}
 	}
 	switch l := lhs.(type) {
